@@ -26,22 +26,6 @@ Example join_composite_same_data_ok :
 Proof. vm_compute. reflexivity. Qed.
 Print Assumptions join_composite_same_data_ok.
 
-(* pivot_unstack(fill_value=0.5) of an int64 column 'v' over the index (p,x) (q,x) (q,y): the new column
-   (v,y) has no cell for group p, which is not the last group, so its array is built with the source
-   dtype int64 and NumPy stores 0.5 as 0 (castfill = what np.array([0.5], dtype=int64) holds). *)
-Definition w_unstack : sframe val (tup * tup) tup :=
-  mk_sframe [([VStr "p"], [VStr "x"]); ([VStr "q"], [VStr "x"]); ([VStr "q"], [VStr "y"])] [[VStr "v"]]
-            [[VInt 1]; [VInt 2]; [VInt 3]].
-
-Theorem unstack_fill_cast_refuted :
-  exists fr,
-    res_map unstack_view (M_unstack tup_eqb tup_eqb true (VFlt 1 2) [Ok (VInt 0)] w_unstack) = Ok fr /\
-    sf_cells fr = [[VInt 1; VInt 0]; [VInt 2; VInt 3]] /\
-    vsframe_keyed_eqb (S_unstack_v (VFlt 1 2) w_unstack) fr = false /\
-    vget (S_unstack_v (VFlt 1 2) w_unstack) [VStr "p"] [VStr "v"; VStr "y"] = VFlt 1 2.
-Proof. eexists. repeat split; vm_compute; reflexivity. Qed.
-Print Assumptions unstack_fill_cast_refuted.
-
 (* f.pivot('i', 'c', 'v', func=len) on rows (a,x,4) (b,x,1) (b,x,3): the cell (a,x) is backed by one row;
    the code shows the row's value 4, the relational definition demands len([4]) = 1. *)
 Definition w_pivot : list vprow :=
